@@ -23,6 +23,9 @@ class MachineryError(Exception):
 
 
 def workdir(name, fresh=True):
+    if REPO != "/repo":          # runs against scratch copies (seeded-change self-test) get their own directories
+        import hashlib
+        name += "-" + hashlib.sha1(REPO.encode()).hexdigest()[:8]
     d = os.path.join(WORK, name)
     if fresh and os.path.isdir(d):
         shutil.rmtree(d, ignore_errors=True)
